@@ -25,7 +25,7 @@ Start ==
      \/ \E k \in Keys : W_Begin("c1", k, 0, -1, 0, 1, 0)
      \/ \E k \in Keys : I_Begin("c1", k, 1, -1)
      \/ F_Start("flusher")
-     \/ CL_Start
+     \/ (MaxRestarts > 0 /\ CL_Start)
      \* (GC over a just rotated file whose flush is still pending is a schedule, not a history: MC_ConcGC)
      \/ (WithGC /\ (\A c \in Chunks : pc[RotName(c)] = "idle") /\ \E b \in -1..MaxChunk, e \in -1..MaxChunk :
             LET r == RangeOf(b, e, LAMBDA n : TRUE) IN r.ok /\ G_Start(r.b, r.e, FALSE))
